@@ -99,6 +99,8 @@ def make_data(n=4, steps=None):
     for i, t in enumerate(TOKENS):
         ls, bs = steps[t.name]
         frames[t.name] = index_frame(ls, bs, n, rates=(f"0.0{11 + 7 * i}", f"0.0{23 + 9 * i}"))
+    # columns are identified by NAME: one token's history comes with its columns in another order
+    frames["DAI"] = frames["DAI"][list(frames["DAI"].columns)[::-1]]
     return frames
 
 
